@@ -19,6 +19,11 @@ Scope (exhaustive inside it):
     differs from a neighbour only in case), the selection being the FIRST access after the rename:
     every name tuple (length <= 2; 3 in the thorough tier) over new + old + missing names - an old name
     must raise, a new name must resolve to its column - and t[rows][cols] == t[cols][rows] == oracle.
+  * integer indices that are instances of int SUBCLASSES (True / False, IntEnum members incl. the harness Color.RED, a user
+    class MyInt(int)): v[i] for every i in -n-2..n+1 in every wrapper; index lists v[[Color.RED, 0]] and non-nullable int
+    Vector keys of length 1..2 (3 in the thorough tier) over plain and wrapped indices (at least one wrapped, not all bool):
+    the list accepts every such index (operator.index), so the vector must return the same elements, name and kind kept,
+    and raise exactly where the list raises.
 Oracle: Python list indexing / list comprehensions.
 """
 import itertools
@@ -189,9 +194,151 @@ def cases_strengthen(tier):
                     yield {'k': 'rn', 'chk': 'commute', 't': lit(t), 'plan': plan, 'names': c, 'rk': rk}
 
 
+
+# ---- strengthen 2: indices that are instances of int subclasses ------------------------------------
+class MyInt(int):
+    """A user subclass of int (no overrides): list indexing accepts it."""
+    def __repr__(self):
+        return f'MyInt({int(self)})'
+
+
+Pos = IntEnum('Pos', {('M%d' % -i if i < 0 else 'P%d' % i): i for i in range(-8, 9)})
+WRAPPERS = ('bool', 'enum', 'color', 'myint')
+
+
+def wrap_ok(w, i):
+    return {'int': True, 'bool': i in (0, 1), 'enum': -8 <= i <= 8, 'color': i == 1, 'myint': True}[w]
+
+
+def mkidx(w, i):
+    if w == 'int':
+        return int(i)
+    if w == 'bool':
+        return bool(i)
+    if w == 'enum':
+        return Pos(i)
+    if w == 'color':
+        return Color.RED
+    return MyInt(i)
+
+
+def idx_src(w, i):
+    return {'int': repr(i), 'bool': repr(bool(i)), 'enum': f'Pos({i})', 'color': 'Color.RED', 'myint': f'MyInt({i})'}[w]
+
+
+def cases_subint(tier):
+    variants = ['int', 'str', 'nfloat']
+    for var in variants:
+        for n in range(6):
+            for i in range(-n - 2, n + 2):
+                for w in WRAPPERS:
+                    if wrap_ok(w, i):
+                        yield {'k': 'subint', 'var': var, 'n': n, 'idx': [w, i]}
+    for var in (['int', 'nfloat'] if tier == 'quick' else variants):
+        for n in range(1, 5 if tier == 'quick' else 6):
+            uni = [[w, i] for i in range(-n - 1, n + 1) for w in ('int',) + WRAPPERS if wrap_ok(w, i)]
+            lens = (1, 2) if tier == 'quick' or n > 3 else (1, 2, 3)
+            for ln in lens:
+                for combo in itertools.product(uni, repeat=ln):
+                    ws = {w for w, _ in combo}
+                    if ws == {'int'} and ln > 1 and tier == 'quick':
+                        continue                        # plain index lists: singles and the thorough tier only (control)
+                    if ws == {'bool'}:
+                        continue                        # an all-bool list / vector is a mask, not an index list
+                    for form in ('list', 'vector'):
+                        if form == 'list' and 'bool' in ws:
+                            continue                    # a list mixing bools and ints: mask or indices is not decided
+                        yield {'k': 'subidx', 'var': var, 'n': n, 'form': form, 'idx': [list(c) for c in combo]}
+
+
+def eval_subint(case):
+    var, n = case['var'], case['n']
+    w, i = case['idx']
+    v, vals, name, kind = mkvec(var, n)
+    key = mkidx(w, i)
+    src = f'{vsrc(var, n)}[{idx_src(w, i)}]'
+    site = 'Vector.getitem.int'
+    try:
+        want = vals[key]
+        raises = False
+    except IndexError:
+        raises = True
+    try:
+        got = v[key]
+    except IndexError as e:
+        if raises:
+            return []
+        return [Fail(f'C07:{site}:int-subclass-spurious-IndexError', f'{src} raised {e!r}; the list gives {want!r}', want, repr(e))]
+    except Exception as e:
+        if raises:
+            return []                                  # out of range: the list raises too
+        return [Fail(f'C07:{site}:int-subclass-rejected', f'{src} raised {type(e).__name__}: {e}; list indexing accepts a {type(key).__name__} index and gives {want!r}',
+                     want, repr(e))]
+    if raises:
+        return [Fail(f'C07:{site}:int-subclass-out-of-range-accepted', f'{src} = {got!r}; the list raises IndexError', 'IndexError', got)]
+    if isinstance(got, Vector) or not same(got, want):
+        return [Fail(f'C07:{site}:int-subclass-wrong-element', f'{src} = {got!r}; the list gives {want!r}', want, got)]
+    if not same(list(v), vals):
+        return [Fail(f'C07:{site}:source-changed', src, vals, list(v))]
+    return []
+
+
+def eval_subidx(case):
+    var, n, form = case['var'], case['n'], case['form']
+    idx = case['idx']
+    v, vals, name, kind = mkvec(var, n)
+    keys = [mkidx(w, i) for w, i in idx]
+    plain = all(w == 'int' for w, _ in idx)
+    inner = ', '.join(idx_src(w, i) for w, i in idx)
+    src = f'{vsrc(var, n)}[[{inner}]]' if form == 'list' else f'{vsrc(var, n)}[Vector([{inner}])]'
+    site = 'Vector.getitem.index-list' if form == 'list' else 'Vector.getitem.index-vector'
+    tag = '' if plain else 'int-subclass-'
+    try:
+        want = [vals[k] for k in keys]
+        raises = False
+    except IndexError:
+        raises = True
+    if form == 'vector':
+        try:
+            key = Vector(list(keys))
+            sch = key.schema()
+        except Exception:
+            return []                                  # construction of the key is not C07's business
+        if sch is None or sch.kind is not int or sch.nullable:
+            return []
+    else:
+        key = list(keys)
+    try:
+        r = v[key]
+    except Exception as e:
+        if raises:
+            return []
+        if form == 'list' and not plain and 'TypeError' in type(e).__name__:
+            # a Python list cannot be indexed by a list at all; the statement fixes v[i], slices and
+            # masks, so refusing an index *list* that holds int-subclass instances is not a violation
+            # (accepting it with wrong elements would be).  [false alarm corrected, DESIGN A.4]
+            return []
+        return [Fail(f'C07:{site}:{tag}rejected', f'{src} raised {type(e).__name__}: {e}; every index is an int instance the list accepts, elements {want!r}',
+                     want, repr(e))]
+    if raises:
+        return [Fail(f'C07:{site}:{tag}out-of-range-accepted', f'{src} = {list(r) if isinstance(r, Vector) else r!r}; the list raises IndexError',
+                     'IndexError', list(r) if isinstance(r, Vector) else r)]
+    if not isinstance(r, Vector) or isinstance(r, Table):
+        return [Fail(f'C07:{site}:not-a-vector', src, want, r)]
+    got = list(r)
+    fails = []
+    if not same(got, want):
+        fails.append(Fail(f'C07:{site}:{tag}wrong-values', f'{src} = {got!r}; the list elements are {want!r}', want, got))
+    fails += keeps(r, v, name, site, src)
+    if not same(list(v), vals):
+        fails.append(Fail(f'C07:{site}:source-changed', src, vals, list(v)))
+    return fails
+
+
 def cases(tier, seed):
     yield from cases_base(tier, seed)
     yield from cases_strengthen(tier)
+    yield from cases_subint(tier)
 
 
 def cases_base(tier, seed):
@@ -880,7 +1027,7 @@ def eval_rn(case):
 
 EVAL = {'slice': eval_slice, 'int': eval_int, 'mask': eval_mask, 'badmask': eval_badmask, 'cmp': eval_cmp, 'logic': eval_logic, 'not': eval_not,
         'trow': eval_trow, 'tbadmask': eval_tbadmask, 'tcols': eval_tcols, 'tcol1': eval_tcol1, 'commute': eval_commute, 'commute1': eval_commute,
-        'trowint': eval_trowint, 'rn': eval_rn}
+        'trowint': eval_trowint, 'rn': eval_rn, 'subint': lambda c: eval_subint(c), 'subidx': lambda c: eval_subidx(c)}
 
 
 def evaluate(case):
@@ -892,6 +1039,8 @@ def evaluate(case):
 
 def nontrivial(case):
     k = case['k']
+    if k in ('subint', 'subidx'):
+        return (k, case['var'], case['n'], case.get('form'), str(case['idx']))
     if k == 'rn':
         return (k, case['chk'], case['t'], str(case['plan']), str(case['names']), str(case.get('rk')))
     if k == 'slice':
@@ -920,6 +1069,7 @@ if __name__ == '__main__':
               '14 family pairs in vector/scalar/list/reflected forms vs Python elementwise, result non-nullable bool; tables 0..3 rows x 1..3 columns: '
               'every row slice of a reduced cube, every row mask, wrong-length masks, every name tuple of length<=3 over existing + missing + '
               'case-variant names, t[rows][cols] == t[cols][rows]; the same on tables whose names differ only in case / sanitisation; name selection '
-              'as the first access after renames through live column views (single, repeated, swap, case-twin), old names must raise.  distinct = distinct (selected index tuple, key sign pattern) etc.',
+              'as the first access after renames through live column views (single, repeated, swap, case-twin), old names must raise; int-subclass indices '
+              '(bool, IntEnum, user int subclass) as v[i] for every i, and inside index lists / int Vector keys of length<=2 (3 thorough) vs list indexing.  distinct = distinct (selected index tuple, key sign pattern) etc.',
          bound=lambda tier: {'max_len': 5, 'slice_cube': '16x16x7', 'cmp_max_len': 3, 'table': '3x3', 'variants': 3 if tier == 'quick' else 4},
          nontrivial=nontrivial)
